@@ -4,8 +4,8 @@
    theorems of Props/C18.v hold of the generated code by rewriting.  An edit of the Python source
    changes Gen/Sim.v and breaks these proofs. *)
 From Coq Require Import QArith ZArith List Bool Arith Permutation.
-From DV Require Import Model.C18Model Model.C18Prims Gen.Sim.
-From DV Require Import Proofs.C18Lists Proofs.C18Tree Proofs.C18Monad Proofs.C18BD Proofs.C18PB Proofs.C18Coal Proofs.C18GenCoal Proofs.C18GenBD Proofs.C18GenPB Proofs.C18GenTaxa.
+From DV Require Import Model.C18Model Model.C18Prims Model.C18MeanModel Gen.Sim.
+From DV Require Import Proofs.C18Lists Proofs.C18Tree Proofs.C18Monad Proofs.C18BD Proofs.C18PB Proofs.C18Coal Proofs.C18GenCoal Proofs.C18GenBD Proofs.C18GenPB Proofs.C18GenTaxa Proofs.C18GenPrune Proofs.C18GenPruneEq Proofs.C18CC Proofs.C18GenCC Proofs.C18FBD Proofs.C18GenFBD Proofs.C18GenMean.
 From DV Require Model.PyPrims.
 Import ListNotations.
 Open Scope nat_scope.
@@ -44,6 +44,62 @@ Theorem gen_pure_kingman_tree_is_model : forall N pop r,
   gen_pure_kingman_tree (seq 0 N) pop r = kingman_run N pop r.
 Proof. exact gen_pure_kingman_tree_eq. Qed.
 Print Assumptions gen_pure_kingman_tree_is_model.
+
+(* model/coalescent.py: contained_coalescent_tree, the whole function: the two passes over the
+   post-order of the containing tree with the dictionary pop_node_genes (keyed by node; every edge
+   hands the lineages that coalesce_nodes leaves after period = edge.length to pop_node_genes of its
+   tail node; the edge of the seed node coalesces the rest) = the recursive walk cc_run of the model,
+   for containing trees whose node identities are distinct.  Input abstraction (Model/C18Prims.v,
+   checked as AST shapes by the translator): genes of a node = `nd.taxon and nd.taxon in reverse` /
+   `sorted(reverse[nd.taxon], key=accession_index)`; pop = the edge's population-size attribute or
+   the default *)
+Theorem gen_contained_coalescent_tree_is_model : forall S r, NoDup (sids S) ->
+  gen_contained_coalescent_tree S r = cc_run S r.
+Proof. exact gen_contained_coalescent_tree_eq. Qed.
+Print Assumptions gen_contained_coalescent_tree_is_model.
+
+(* ... so contained_spec holds of the translated code *)
+Theorem gen_contained_spec : forall (S : stree) (script : list draw) (g : gtree) (r : rs),
+  gen_contained_coalescent_tree S (script, []) = Done g r ->
+  NoDup (sids S) ->
+  NoDup (sgenes S) ->
+  (forall c, In c (ssubtrees S) -> (0 <= lenq (s_len c))%Q /\ (0 <= s_pop c)%Q) ->
+  (forall q, In (DExp q) script -> (0 <= q)%Q) ->
+  (forall c x y h,
+     In c (flat_map ssubtrees (s_kids S)) -> In x (sgenes c) -> ~ In y (sgenes c) ->
+     joins g x y h -> (up_len c x <= h)%Q) /\
+  (forall s, In s (gsubtrees g) -> length (g_kids s) = 0 \/ length (g_kids s) = 2).
+Proof. exact gen_contained_spec_proved. Qed.
+Print Assumptions gen_contained_spec.
+
+(* model/coalescent.py: mean_kingman_tree (outside the property's list; shares coalesce_nodes):
+   expected_tmrca, coalesce_nodes specialised to use_expected_tmrca=True and mean_kingman_tree are
+   translated and equal the reference model Model/C18MeanModel.v (waiting time of a round with n
+   lineages = 1 / choose(n, 2) * pop_size, the only draws are the sampled pairs) *)
+Theorem gen_coalesce_nodes_mean_is_model : forall pop period nodes r,
+  gen_coalesce_nodes_mean pop period nodes r = coalesce_nodes_mean pop period nodes r.
+Proof. exact gen_coalesce_nodes_mean_eq. Qed.
+Print Assumptions gen_coalesce_nodes_mean_is_model.
+
+Theorem gen_mean_kingman_tree_is_model : forall N pop r,
+  gen_mean_kingman_tree (seq 0 N) pop r = mean_kingman_run N pop r.
+Proof. exact gen_mean_kingman_tree_eq. Qed.
+Print Assumptions gen_mean_kingman_tree_is_model.
+
+(* the translated mean_kingman_tree returns one leaf per taxon, a binary and ultrametric tree, for
+   every script, and terminates *)
+Theorem gen_mean_kingman_spec : forall N pop script t r,
+  gen_mean_kingman_tree (seq 0 N) pop (script, []) = Done t r ->
+  Permutation (gleaf_taxa t) (map Some (seq 0 N)) /\
+  (forall s, In s (gsubtrees t) -> length (g_kids s) = 0 \/ length (g_kids s) = 2) /\
+  (exists D, forall x h, In (x, h) (gtips t) -> h == D)%Q.
+Proof. exact gen_mean_kingman_spec_proved. Qed.
+Print Assumptions gen_mean_kingman_spec.
+
+Theorem gen_mean_kingman_terminates : forall N pop script,
+  gen_mean_kingman_tree (seq 0 N) pop (script, []) <> NoFuel.
+Proof. exact gen_mean_kingman_terminates_proved. Qed.
+Print Assumptions gen_mean_kingman_terminates.
 
 (* the specification of Props/C18.v, of the generated pure_kingman_tree *)
 Theorem gen_kingman_spec : forall N pop script t r,
@@ -107,13 +163,109 @@ Print Assumptions gen_uniform_pure_birth_tree_is_model.
 
 (* model/birthdeath.py: birth_death_tree from tree.suppress_unifurcations() to `return tree` (the
    taxon assignment; fresh labels through taxon_namespace.new_taxon): the repaired form of the
-   model's taxa_block (first argument true), for every case mode cs.  (The pruning of the extinct
-   tips between the event loop and this part is not translated.) *)
+   model's taxa_block (first argument true), for every case mode cs *)
 Theorem gen_birth_death_tree_taxa_is_model : forall cs t ns r,
   NoDup (ids t) ->
   gen_birth_death_tree_taxa t ns r = taxa_block true cs ns (suppress t) r.
 Proof. exact gen_birth_death_tree_taxa_eq. Qed.
 Print Assumptions gen_birth_death_tree_taxa_is_model.
+
+(* model/birthdeath.py: birth_death_tree, the pruning of the extinct tips between the event loop and
+   suppress_unifurcations (`if not is_retain_extinct_tips: ... tree.prune_subtree(nd, ...)`):
+   the upward climb `while nd.parent_node is not None and len(nd.parent_node._child_nodes) == 1`
+   stops where the top-down computation ctop says, within fuel = number of nodes ... *)
+Theorem gen_climb_is_ctop : forall T x, NoDup (ids T) -> In x (ids T) ->
+  exists y n, ctop x T = Some (y, n) /\ climbf (S (length (ids T))) T x = Some y.
+Proof. exact climb_is_ctop. Qed.
+Print Assumptions gen_climb_is_ctop.
+
+(* ... and removing the subtree at the node where the climb stops is the model's bottom-up prune1
+   (None = the climb reached the seed node: prune_subtree raises TypeError) *)
+Theorem gen_prune_at_top_is_prune1 : forall x t, NoDup (ids t) -> In x (ids t) ->
+  forall y n, ctop x t = Some (y, n) ->
+  prune1 x t = if y =? b_id t then None else Some (remove_child y t).
+Proof. exact prune1_ctop. Qed.
+Print Assumptions gen_prune_at_top_is_prune1.
+
+(* the translated block = prune_all of the model, for a tree with distinct identities whose extinct
+   tips are leaves (both are part of the loop invariant gen_birth_death_tree_loop_invariant) *)
+Theorem gen_birth_death_tree_prune_is_model : forall t dead r,
+  NoDup (ids t) -> (forall x, In x dead -> In x (leaf_ids t)) ->
+  gen_birth_death_tree_prune t dead r = prune_all dead [] t r.
+Proof. exact gen_birth_death_tree_prune_eq. Qed.
+Print Assumptions gen_birth_death_tree_prune_is_model.
+
+(* the three translated parts in source order, connected through the variables they were cut at
+   (Proofs/C18GenPruneEq.v, gen_birth_death_tree_whole), are bd_run of the model ... *)
+Theorem gen_birth_death_tree_is_model : forall cs b d sb sd N ns r, 1 <= N ->
+  gen_birth_death_tree_whole b d sb sd N ns r = bd_run true cs (mkBdp b d sb sd N) ns r.
+Proof. exact gen_birth_death_tree_whole_eq. Qed.
+Print Assumptions gen_birth_death_tree_is_model.
+
+(* ... so bd_result_spec holds of the translated code *)
+Theorem gen_birth_death_tree_spec : forall (cs : bool) b d sb sd N (ns : list lab) (script : list draw)
+                                           (t : btree) (ns' : list lab) (r : rs),
+  1 <= N ->
+  gen_birth_death_tree_whole b d sb sd N ns (script, []) = Done (t, ns') r ->
+  length (leaf_ids t) = N /\
+  (forall s, In s (subtrees t) -> length (b_kids s) = 0 \/ length (b_kids s) = 2) /\
+  NoDup (ids t) /\
+  (exists D, forall x q, In (x, q) (depths t) -> q == D)%Q /\
+  (forall x, In x (leaf_taxa t) -> exists i, x = Some i /\ i < length ns') /\
+  NoDup (leaf_taxa t) /\
+  (exists extra, ns' = ns ++ extra).
+Proof. exact gen_bd_result_spec. Qed.
+Print Assumptions gen_birth_death_tree_spec.
+
+(* model/birthdeath.py: fast_birth_death_tree.  One pass of its event loop (waiting time from the
+   total rate, rng.randint index into extant_tips, rng.random() against b/(b+d), creation times held
+   in edge.length, `extant_tips[taxI] = c1`, `del extant_tips[taxI]`, restart from initial_lengths)
+   refines fbd_body of the model under the loop invariant fbd_inv; the exit pass closes the open
+   edges (= close_set).  br / dr: the birth_rate / death_rate attribute stores, written but never
+   read by this function *)
+Theorem gen_fast_birth_death_tree_pass_refines : forall b d N st br dr r, fbd_inv N st ->
+  if N <=? length (f_ext st)
+  then gen_fast_birth_death_tree_loop_while3 b d N [0] [] [0%Q] (ftup st br dr) r =
+       Done (CBreak (R := Empty_set) (ftup (fclosed st) br dr)) r
+  else follows (fbd_body (fP b d N) st r)
+               (gen_fast_birth_death_tree_loop_while3 b d N [0] [] [0%Q] (ftup st br dr) r)
+               (fun st' r' => exists br' dr',
+                  gen_fast_birth_death_tree_loop_while3 b d N [0] [] [0%Q] (ftup st br dr) r =
+                  Done (CNext (R := Empty_set) (ftup st' br' dr')) r').
+Proof. exact gen_fbd_pass. Qed.
+Print Assumptions gen_fast_birth_death_tree_pass_refines.
+
+(* from the first statement to the end of the event loop: the same outcome as fbd_loop from fbd_init
+   (same error, or the same tree / tip lists / clock / next identity and the same generator state) *)
+Theorem gen_fast_birth_death_tree_loop_is_model : forall b d N ns r, 1 <= N ->
+  follows (fbd_loop (S (length (fst r))) (fP b d N) fbd_init r)
+          (gen_fast_birth_death_tree_loop b d N ns r)
+          (fun st' r' => exists br dr,
+             gen_fast_birth_death_tree_loop b d N ns r = Done (fbd_loop_result st' br dr) r').
+Proof. exact gen_fast_birth_death_tree_loop_refines. Qed.
+Print Assumptions gen_fast_birth_death_tree_loop_is_model.
+
+(* the three translated parts in source order (Proofs/C18GenFBD.v, gen_fast_birth_death_tree_whole; the
+   pruning and taxon-assignment statements are those of birth_death_tree) are fbd_run of the model *)
+Theorem gen_fast_birth_death_tree_is_model : forall cs b d N ns r, 1 <= N ->
+  gen_fast_birth_death_tree_whole b d N ns r = fbd_run true cs (fP b d N) ns r.
+Proof. exact gen_fast_birth_death_tree_whole_eq. Qed.
+Print Assumptions gen_fast_birth_death_tree_is_model.
+
+(* ... so fast_bd_result_spec holds of the translated code *)
+Theorem gen_fast_birth_death_tree_spec : forall (cs : bool) b d N (ns : list lab) (script : list draw)
+                                                (t : btree) (ns' : list lab) (r : rs),
+  1 <= N ->
+  gen_fast_birth_death_tree_whole b d N ns (script, []) = Done (t, ns') r ->
+  length (leaf_ids t) = N /\
+  (forall s, In s (subtrees t) -> length (b_kids s) = 0 \/ length (b_kids s) = 2) /\
+  NoDup (ids t) /\
+  (exists D, forall x q, In (x, q) (depths t) -> q == D)%Q /\
+  (forall x, In x (leaf_taxa t) -> exists i, x = Some i /\ i < length ns') /\
+  NoDup (leaf_taxa t) /\
+  (exists extra, ns' = ns ++ extra).
+Proof. exact gen_fbd_result_spec. Qed.
+Print Assumptions gen_fast_birth_death_tree_spec.
 
 (* every draw of geometric_rv / poisson_rv / time_to_coalescence / weighted_index_choice /
    sample_multinomial / birth_death_tree / fast_birth_death_tree / uniform_pure_birth_tree /
